@@ -67,6 +67,7 @@ def vecW (e : WD) (l : LenTy) : Walker := fun s =>
   let dOff := max l.size e.d.align
   (l.readU s).bind fun len =>
     (vecSlots e.d l s.len).bind fun slots =>
+      if e.d.ssize = 0 then .ok s!"V{min slots l.max}[*{len}]" else
       (walkArr e.w e.d.ssize len 0 (s.drop dOff)).bind fun xs => .ok (s!"V{min slots l.max}[" ++ joinSp xs ++ "]")
 def strW (l : LenTy) : Walker := fun s =>
   (l.readU s).bind fun len =>
